@@ -287,7 +287,9 @@ def client_pairing(ctx):
         g = cfg_of(fn)
         un = [c for c in calls_in(fn) if call_name(c) == "resource_tracker.unregister" and const_value(c.args[1]) == "folder"]
         de = [c for c in calls_in(fn) if call_name(c) == "delete_folder"]
-        ctx.need(un and de, "%s no longer deletes and unregisters the folder" % q)
+        if not (un and de):
+            ctx.bad(fn, "%s no longer %s" % (q, "unregisters the folder after deleting it (the tracker deletes it again / warns at shutdown)" if de else "deletes the folder"), key="%s::%s::delete+unregister" % (MR, q))
+            continue
         for u in un:
             n += 1
             tr = [a for a in ancestors(u) if isinstance(a, ast.Try) and in_block(u, a.body)]
